@@ -58,7 +58,14 @@ func main() {
 	extra := flag.String("extra", "", "directory with extra files to add per package: <extra>/<relpkg>/*.go")
 	tags := flag.String("tags", "unit", "build tags")
 	mapto := flag.String("mapto", "", "root to use in overlay keys instead of -repo (sources are read from -repo, the build sees them at -mapto)")
+	skip := flag.String("skip", "", "comma-separated file base names that are left unwoven (pure computation)")
 	flag.Parse()
+	skipSet := map[string]bool{}
+	for _, f := range strings.Split(*skip, ",") {
+		if f != "" {
+			skipSet[f] = true
+		}
+	}
 	if *out == "" || flag.NArg() == 0 {
 		fmt.Fprintln(os.Stderr, "usage: weaver -out DIR pkg...")
 		os.Exit(2)
@@ -77,6 +84,11 @@ func main() {
 	}
 	var patterns []string
 	for _, a := range flag.Args() {
+		if first := strings.SplitN(a, "/", 2)[0]; strings.Contains(first, ".") && !strings.HasPrefix(a, "./") {
+			// an import path of a dependency (github.com/...): woven from the module cache
+			patterns = append(patterns, a)
+			continue
+		}
 		patterns = append(patterns, "./"+strings.TrimPrefix(a, "./"))
 	}
 	pkgs, err := packages.Load(cfg, patterns...)
@@ -101,7 +113,7 @@ func main() {
 		rel := strings.TrimPrefix(p.PkgPath, "github.com/dapr/kit/")
 		for i, f := range p.Syntax {
 			name := p.CompiledGoFiles[i]
-			if strings.HasSuffix(name, "_test.go") {
+			if strings.HasSuffix(name, "_test.go") || skipSet[filepath.Base(name)] {
 				continue
 			}
 			src, err := os.ReadFile(name)
@@ -122,7 +134,7 @@ func main() {
 				os.Exit(2)
 			}
 			key := name
-			if *mapto != "" {
+			if *mapto != "" && strings.HasPrefix(name, filepath.Clean(*repo)+string(filepath.Separator)) {
 				key = filepath.Join(*mapto, strings.TrimPrefix(name, filepath.Clean(*repo)))
 			}
 			overlay[key] = dst
